@@ -548,7 +548,11 @@ func (t *tr) specCall(c *ast.CallExpr, sc *specCtx) Term {
 			lo, hi := t.spec(c.Args[1], sc), t.spec(c.Args[2], sc)
 			p := t.spec(c.Args[3], sc2)
 			if off, ok := soleOffsetUse(p.S, bv.S); ok {
-				np := Term{S: strings.ReplaceAll(p.S, "(+ "+off+" "+bv.S+")", bv.S), Sort: SBool}
+				// j = off + i: offset uses become j, any other use of i becomes (j - off)
+				ps := strings.ReplaceAll(p.S, "(+ "+off+" "+bv.S+")", "\x00")
+				ps = replaceSymbol(ps, bv.S, "(- "+bv.S+" "+off+")")
+				ps = strings.ReplaceAll(ps, "\x00", bv.S)
+				np := Term{S: ps, Sort: SBool}
 				o := Term{S: off, Sort: SInt}
 				rng := and(le(add(o, lo), bv), lt(bv, add(o, hi)))
 				if name == "forall" {
@@ -655,6 +659,19 @@ func (t *tr) specCall(c *ast.CallExpr, sc *specCtx) Term {
 			return t.specErr(sc, "boxed: unknown type")
 		}
 		return t.box(a, a.T, T)
+	case "elemsof": // elemsof(s): the backing array of slice s (absolute indices), as an array value
+		if !need(1) {
+			return tFalse
+		}
+		a := arg(0)
+		if a.Sort != SSlice || a.T == nil {
+			return t.specErr(sc, "elemsof: not a slice: %s", a.S)
+		}
+		st := a.T.Underlying().(*types.Slice)
+		es := t.V.W.sortOf(st.Elem())
+		r := sel(t.readIn(sc.cur, t.elemHeapT(st.Elem(), es)), slArr(a))
+		r.T = types.NewArray(st.Elem(), 0)
+		return r
 	case "let": // let(v, e, body): body with v bound to the value of e in the current context (useful around old())
 		if !need(3) {
 			return tFalse
@@ -810,9 +827,9 @@ func soleOffsetUse(f, v string) (string, bool) {
 			continue
 		}
 		total++
-		// expect "(+ (off ...) " immediately before
+		// offset use: "(+ T v)" with T a parenthesised term; other uses are allowed (they are rewritten to v - T)
 		if k < 1 || f[k-1] != ' ' || k < 2 || f[k-2] != ')' {
-			return "", false
+			continue
 		}
 		// find the matching '(' of the term ending at k-2
 		depth := 0
@@ -827,20 +844,45 @@ func soleOffsetUse(f, v string) (string, bool) {
 				}
 			}
 		}
-		if j < 3 || f[j-3:j] != "(+ " || !strings.HasPrefix(f[j:], "(off ") || i >= len(f) || f[i] != ')' {
-			return "", false
+		if j < 3 || f[j-3:j] != "(+ " || i >= len(f) || f[i] != ')' {
+			continue
+		}
+		if strings.Contains(f[j:k-1], v) {
+			continue
 		}
 		o := f[j : k-1]
 		if off == "" {
-			off = o
-		} else if off != o {
-			return "", false
+			off = o // the first slice offset found is used for the change of variable
 		}
 	}
 	if total == 0 || off == "" {
 		return "", false
 	}
 	return off, true
+}
+
+// replaceSymbol replaces whole-symbol occurrences of sym in an SMT-LIB text.
+func replaceSymbol(f, sym, by string) string {
+	var b strings.Builder
+	for i := 0; i < len(f); {
+		k := strings.Index(f[i:], sym)
+		if k < 0 {
+			b.WriteString(f[i:])
+			break
+		}
+		k += i
+		end := k + len(sym)
+		before := k == 0 || strings.ContainsRune(" (", rune(f[k-1]))
+		after := end >= len(f) || strings.ContainsRune(" )", rune(f[end]))
+		b.WriteString(f[i:k])
+		if before && after {
+			b.WriteString(by)
+		} else {
+			b.WriteString(sym)
+		}
+		i = end
+	}
+	return b.String()
 }
 
 var _ = constant.MakeBool
